@@ -112,6 +112,11 @@ func (t *Timer) Scheduled() bool {
 }
 
 func (t *Timer) Cancel() error {
+	if t.state == stateClosed {
+		// A closed timer no longer owns its descriptor and cannot be made ready again.
+		return nil
+	}
+
 	err := t.it.Unset()
 	if err == nil {
 		t.cancelled = true
